@@ -69,6 +69,8 @@ def generate(seed, tier):
             ops.append({'op': 'restart'})
         elif x < 0.94:
             ops.append({'op': 'clock_jump', 'dt': rng.choice([-3600_000, -60_000, 60_000, 3600_000, 86_400_000])})
+        elif x < 0.97:
+            ops.append({'op': 'duplicate_key', 'direction': rng.choice(['OUTGOING', 'OUTGOING', 'INCOMING']), 'n': rng.randrange(100)})
         else:
             ops.append({'op': 'write_peers_crash', 'addr': rng.randrange(n_addr), 'preload': rng.choice([0, 1, 5, 99, 100, 130])})
     if long_run:
@@ -270,6 +272,40 @@ def execute(script):
                         c.close()
                         res.bump('remote_closes')
                 k.run(k.now + 500)
+            elif kind == 'duplicate_key':
+                # a second connection under a key that is already connected (the book must drop the old one and stay consistent)
+                nm = node.lp.network_manager
+                keys = sorted(kk for kk in nm.connected_peers if kk[2] == op.get('direction'))
+                if not keys:
+                    continue
+                key = keys[op.get('n', 0) % len(keys)]
+                k.current = node
+                try:
+                    if key[2] == 'OUTGOING':
+                        ref.a.setdefault((key[0], key[1]), {'prev': None, 'k': 0, 'open': False, 'greeted': False, 'self': False})
+                        ref.a[(key[0], key[1])]['prev'] = None      # an explicit dial by the caller is not a back-off retry
+                        dp = nm.connected_peers[key].as_disconnected()
+                        dp.last_connection_attempt = int(node.clock_s())     # what NetworkManager.step records before dialling
+                        try:
+                            node.lp.start_outgoing_connection(dp)
+                        except Exception as e:
+                            nmx = node.lp.network_manager
+                            both = sorted(set(nmx.connected_peers) & set(nmx.disconnected_peers))
+                            res.violate(PROP, 'C19/address-both-connected-and-waiting' if both else 'C19/connect-raised',
+                                        'a second connection under an already connected key raised %s: %s%s' % (
+                                            type(e).__name__, e, (' - recorded as connected and waiting: %s' % (both[0],)) if both else ''))
+                            state['violated'] = True
+                            break
+                    else:
+                        src = [b for b in bots if b is not None and b.host == key[0]]
+                        if not src:
+                            continue
+                        k.net.force_local_port = key[1]
+                        src[0].connect(('10.0.0.1', 2412))
+                finally:
+                    k.current = None
+                res.bump('duplicate_key_connections')
+                k.run(k.now + 1500)
             elif kind == 'clock_jump':
                 node.skew_ms += op.get('dt', 0)
                 res.bump('fault:clock_jump_backward' if op.get('dt', 0) < 0 else 'fault:clock_jump_forward')
@@ -394,5 +430,5 @@ def describe():
                         'a slow node (steps every minutes) is used for the multi-week runs'],
         'expected_probes': ['outgoing_attempts', 'incoming_connections', 'remote_closes', 'fault:restart', 'fault:clock_jump_backward',
                             'peer_file_writes_swept', 'fault:crash_in_peer_file_write', 'probe:backoff_reached_cap',
-                            'probe:self_connection_detected', 'fault:connect_timeout', 'connect_refused'],
+                            'probe:self_connection_detected', 'fault:connect_timeout', 'connect_refused', 'duplicate_key_connections'],
     }
